@@ -165,12 +165,17 @@ pub fn build_array(ty: &DataType, vals: &[DataValue]) -> ArrayImpl {
     b.finish()
 }
 
-/// Exact equality, floats by bits.
+/// Exact equality, floats by bits -- except that every NaN is the same value (SQL has one NaN:
+/// payload and sign of a NaN can be neither written nor observed through any statement, and the
+/// engine's own `F64` equality identifies them; the sign of a zero, in contrast, prints).
 pub fn same(a: &DataValue, b: &DataValue) -> bool {
+    fn f(p: f64, q: f64) -> bool {
+        p.to_bits() == q.to_bits() || (p.is_nan() && q.is_nan())
+    }
     match (a, b) {
-        (DataValue::Float64(x), DataValue::Float64(y)) => x.0.to_bits() == y.0.to_bits(),
+        (DataValue::Float64(x), DataValue::Float64(y)) => f(x.0, y.0),
         (DataValue::Vector(x), DataValue::Vector(y)) => {
-            x.len() == y.len() && x.iter().zip(y.iter()).all(|(p, q)| p.to_bits() == q.to_bits())
+            x.len() == y.len() && x.iter().zip(y.iter()).all(|(p, q)| f(p.0, q.0))
         }
         _ => a == b,
     }
@@ -235,7 +240,7 @@ impl ColCase {
         } else {
             *r.pick(&["plain", "plain", "rle", "dict"])
         };
-        ColCase {
+        let mut c = ColCase {
             seed,
             // (the vector array builder has no NULL representation)
             nullable: ty != "vector" && r.chance(1, 2),
@@ -244,10 +249,21 @@ impl ColCase {
             crc: r.chance(1, 2),
             n: *r.pick(&[0usize, 1, 2, 7, 63, 64, 65, 200, 1000, 3000]),
             card: *r.pick(&[0u64, 0, 1, 2, 3, 8]),
-            pattern: r.pick(&["random", "runs", "alternate", "nullruns", "sorted"]).to_string(),
+            pattern: r.pick(&["random", "runs", "alternate", "nullruns", "sorted", "longruns"]).to_string(),
             chunking: *r.pick(&[1usize, 7, 100, 1024, 100000]),
             ty,
+        };
+        if c.pattern == "longruns" {
+            // runs around the 7-bit boundaries of the run-length varint (128, 16384): long enough
+            // columns, mostly run-length encoded, blocks that can hold such a run
+            c.n = *r.pick(&[300usize, 1000, 3000, 20000, 40000]);
+            if c.ty != "vector" && r.chance(2, 3) {
+                c.encode = "rle".into();
+            }
+            c.block = *r.pick(&[256usize, 1024, 4096, 4096]);
+            c.chunking = *r.pick(&[100usize, 1024, 100000]);
         }
+        c
     }
     pub fn values(&self) -> Vec<DataValue> {
         let mut r = Rng(self.seed ^ 0xDA7A);
@@ -257,9 +273,13 @@ impl ColCase {
         let mut null_run = 0u64;
         for i in 0..self.n {
             let v = match self.pattern.as_str() {
-                "runs" | "nullruns" => {
+                "runs" | "nullruns" | "longruns" => {
                     if run_left == 0 {
-                        run_left = 1 + r.below(40);
+                        run_left = if self.pattern == "longruns" {
+                            *r.pick(&[1u64, 2, 126, 127, 128, 129, 130, 255, 256, 257, 1000, 16383, 16384, 16385])
+                        } else {
+                            1 + r.below(40)
+                        };
                         cur = gen_value(&mut r, &self.ty, self.card);
                         if self.pattern == "nullruns" && self.nullable && r.chance(1, 3) {
                             null_run = run_left;
@@ -603,12 +623,14 @@ fn range_case(seed: u64) -> Value {
     let mut r = Rng(seed ^ 0xC13);
     let n = *r.pick(&[1u64, 5, 40, 200, 1500]);
     let block = *r.pick(&[16u64, 32, 64, 256, 4096]);
-    // sorted distinct int32 keys (the storage keeps a primary-key row-set sorted)
+    // sorted int32 keys (the storage keeps a primary-key row-set sorted); the key column is not
+    // enforced unique, so half of the cases carry runs of duplicates
+    let dups = r.chance(1, 2);
     let mut keys: Vec<i32> = vec![];
     let mut k = r.range(-50, 50) as i32;
     for _ in 0..n {
         keys.push(k);
-        k += 1 + r.below(4) as i32;
+        k += if dups { *r.pick(&[0i32, 0, 0, 0, 1, 2]) } else { 1 + r.below(4) as i32 };
     }
     let pick = |r: &mut Rng| -> i32 {
         match r.below(5) {
